@@ -88,9 +88,9 @@ PROPS = {
         "rule": "random sequences (1-6, sometimes 10-40) of the 17 SafeWriter/io.Writer calls incl. nested Print/Printf with valid-UTF-8 hostile payloads, run through StringBuilder, the Sprintfn printer and a SafeFormat printer; the three results are compared with the payload concatenations (stripped / envelopes deleted) and with each other up to merging; ManualBuffer: " + BUFRULE,
     },
     "C10": {
-        "gens": LOW,
+        "gens": LOW + BUF,
         "qtags": ["Q:C10", "Q:C11"],
-        "rule": "all byte strings over the 10-piece alphabet {a,space,LF,?,E2,80,B9,BA,C3,97} up to the depth, every startLoc, 4 flag settings (escape); same strings through EscapeBytes/EscapeMarkers; plus random longer hostile strings; non-trivial = output differs from input",
+        "rule": "all byte strings over the 10-piece alphabet {a,space,LF,?,E2,80,B9,BA,C3,97} up to the depth, every startLoc, 4 flag settings (escape); same strings through EscapeBytes/EscapeMarkers; plus random longer hostile strings; non-trivial = output differs from input; split-insensitivity across Write/WriteString calls: " + BUFRULE,
         "exhaustive": True,
         "assumptions": ["regexp engine semantics for [‹›] modelled at token level (validated here)"],
     },
